@@ -103,6 +103,22 @@ def _check_main(run, P):
              "it raised", minimum=1)
     run.rule("C14.sweeps", "every sweep sees every statement: the phases are copied "
              "into lists before the first sweep", minimum=1)
+    run.rule("C14.builtins", "result kinds of the built-ins are kind constructors whose "
+             "realness is a conjunction over argument kinds (monotone): shared with "
+             "C09.arity / C09.real", minimum=10)
+    from . import c09 as _c09
+    for r_ in ("C09.arity", "C09.tables", "C09.real"):
+        run.rule_docs.setdefault(r_, "")
+        run.minimum.setdefault(r_, 0)
+    n0_ = len(run.obs)
+    _c09._arity_tables(run, P)
+    _c09._real(run, P)
+    for o_ in run.obs[n0_:]:
+        if o_.rule in ("C09.arity", "C09.tables", "C09.real"):
+            o_.rule = "C14.builtins"
+    for r_ in ("C09.arity", "C09.tables", "C09.real"):
+        run.rule_docs.pop(r_, None)
+        run.minimum.pop(r_, None)
     _eq(run, P)
     _defer(run, P)
     _sweeps(run, P)
